@@ -197,6 +197,23 @@ Theorem c12_as_bytes_ok :
      (is_False private = true \/ (is_True private = false /\ raw_is_private sk pk r = false))).
 Proof. exact as_bytes_ok. Qed.
 
+(* ---- histories on one key object ---- *)
+(* For EVERY sequence of as_dict (any flag, any params), ensure_kid and thumbprint calls on
+   one key: the i-th result, when the i-th call is as_dict(private=False, **params), is a dict
+   whose members are non-private or the caller's params, without any private member that is
+   not a param, and with the non-private members (other than a generated kid) of the key as
+   it was before the first call.  Earlier private exports, exports with params, kid
+   generation and thumbprints change nothing. *)
+Theorem c12_history_public_exports :
+  forall H reg is_priv ops d params r,
+    In (OAsDict (PBool false) params, r) (combine ops (snd (run_history H reg is_priv d ops))) ->
+    exists out, r = RDict (Ok out) /\
+      (forall m, In m (dkeys out) -> member_private reg m = false \/ In m (dkeys params)) /\
+      (forall m, member_private reg m = true -> dget (rev params) m = None -> dget out m = None) /\
+      (forall m, member_private reg m = false -> m <> s_kid -> dget (rev params) m = None ->
+                 dget out m = dget d m).
+Proof. intros H reg is_priv ops d params r. apply history_public_paired. intros m _. reflexivity. Qed.
+
 (* ---- generation: a key requested public-only IS public-only ---- *)
 Definition gen_flag_demo :=
   let priv := fun (r : res (list (gkey unit unit))) => do l <- r; Ok (map (g_is_private unit unit) l) in
@@ -355,6 +372,17 @@ Example c12_keyset_private_on_public_instance :
      {| k_kind := KEC; k_raw_private := false; k_dict := ex_ec |}] (PBool true) [] = Err EValue.
 Proof. vm_compute. reflexivity. Qed.
 
+Example c12_history_instance :
+  snd (run_history ex_H value_registry_EC true ex_ec
+         [OAsDict (PBool false) []; OAsDict PNone []; OEnsureKid; OAsDict (PBool false) []]) =
+  [RDict (Ok [(asc "crv", PStr (asc "P-256")); (asc "x", PStr (asc "eA")); (asc "y", PStr (asc "eQ"));
+              (asc "kty", PStr (asc "EC"))]);
+   RDict (Ok ex_ec);
+   RUnit (Ok tt);
+   RDict (Ok [(asc "crv", PStr (asc "P-256")); (asc "x", PStr (asc "eA")); (asc "y", PStr (asc "eQ"));
+              (asc "kty", PStr (asc "EC")); (asc "kid", PStr (asc "thumb"))])].
+Proof. vm_compute. reflexivity. Qed.
+
 Example c12_thumbprint_instance :
   thumb_input value_registry_EC ex_ec =
   Ok [(asc "crv", PStr (asc "P-256")); (asc "kty", PStr (asc "EC"));
@@ -389,6 +417,7 @@ Print Assumptions c12_private_on_public_dict.
 Print Assumptions c12_private_on_public_bytes.
 Print Assumptions c12_as_bytes_public.
 Print Assumptions c12_as_bytes_ok.
+Print Assumptions c12_history_public_exports.
 Print Assumptions c12_registry_generate_is_class_generate.
 Print Assumptions c12_generate_public_is_public.
 Print Assumptions c12_generate_key_set_public.
